@@ -36,10 +36,10 @@ Proof.
   intros He H. unfold readable_ev. destruct w as [p|ue p spans]; cbn [insert_] in H.
   - destruct (p <? 0)%Z.
     + injection H as <-. rewrite readable_app, (silent_any _ He). apply app_nil_r.
-    + destruct (sel_pos (Z.to_nat p) 0 0 (texts evs)) as [[i q]|]; [|discriminate]. injection H as <-.
-      apply subst_nth_readable. intros; now apply split_ins_neutral.
+    + destruct (sel_pos (Z.to_nat p) 0 0 (texts_main evs)) as [[i q]|]; [|discriminate]. injection H as <-.
+      apply subst_main_readable. intros; now apply split_ins_neutral.
   - destruct (if (p <? 0)%Z then sel_re_neg 0 spans None else sel_re_pos (Z.to_nat p) 0 0 spans) as [[i [x y]]|]; [|discriminate].
-    injection H as <-. apply subst_nth_readable. intros; now apply split_ins_neutral.
+    injection H as <-. apply subst_main_readable. intros; now apply split_ins_neutral.
 Qed.
 (* an empty mark (no character data inside) leaves the raw text alone as well *)
 Lemma split_ins_raw elem p s : raw elem = [] -> raw (split_ins elem p s) = s.
@@ -53,29 +53,11 @@ Proof.
   intros He H. destruct w as [p|ue p spans]; cbn [insert_] in H.
   - destruct (p <? 0)%Z.
     + injection H as <-. rewrite raw_app, He. apply app_nil_r.
-    + destruct (sel_pos (Z.to_nat p) 0 0 (texts evs)) as [[i q]|]; [|discriminate]. injection H as <-.
-      apply subst_nth_raw. intros; now apply split_ins_raw.
+    + destruct (sel_pos (Z.to_nat p) 0 0 (texts_main evs)) as [[i q]|]; [|discriminate]. injection H as <-.
+      apply subst_main_raw. intros; now apply split_ins_raw.
   - destruct (if (p <? 0)%Z then sel_re_neg 0 spans None else sel_re_pos (Z.to_nat p) 0 0 spans) as [[i [x y]]|]; [|discriminate].
-    injection H as <-. apply subst_nth_raw. intros; now apply split_ins_raw.
+    injection H as <-. apply subst_main_raw. intros; now apply split_ins_raw.
 Qed.
-
-(* ---------------------------------------------------------------- k successive insertions of mixed kinds *)
-Inductive ins_step : list ev -> list ev -> Prop :=
-| IS_off k a off len evs : plain_kind k = true -> (0 <= off)%Z -> ins_step evs (wrap_off k a off len evs)
-| IS_re k a spans evs : plain_kind k = true -> all_spans_ok (texts evs) spans = true -> ins_step evs (wrap_re k a spans evs)
-| IS_ins elem w evs evs' : silent elem -> insert_ elem w evs = Some evs' -> ins_step evs evs'.
-Inductive ins_steps : nat -> list ev -> list ev -> Prop :=
-| ISS_0 evs : ins_steps 0 evs evs
-| ISS_S n x y z : ins_step x y -> ins_steps n y z -> ins_steps (S n) x z.
-Lemma ins_step_readable x y : ins_step x y -> readable_ev y = readable_ev x.
-Proof.
-  destruct 1.
-  - now apply wrap_off_readable.
-  - now apply wrap_re_readable.
-  - eapply insert_readable; eassumption.
-Qed.
-Theorem ins_steps_readable n x y : ins_steps n x y -> readable_ev y = readable_ev x.
-Proof. induction 1 as [|n x y z H _ IH]; [reflexivity|]. rewrite IH. now apply ins_step_readable. Qed.
 
 (* ---------------------------------------------------------------- an address that matches nothing *)
 Lemma subst_each_id evs : forall fs, Forall (fun f => forall s, f s = [Txt s]) fs -> subst_each fs evs = evs.
@@ -115,9 +97,9 @@ Proof.
   induction ts as [|s ts IH]; intros c i H; [reflexivity|]. cbn [sel_pos concat] in *. rewrite app_length in H.
   destruct (Nat.leb_spec p (length s + c)); [lia|]. apply IH. lia.
 Qed.
-Theorem insert_beyond elem p evs : (Z.of_nat (length (raw evs)) < p)%Z -> insert_ elem (WPos p) evs = None.
+Theorem insert_beyond elem p evs : (Z.of_nat (length (concat (texts_main evs))) < p)%Z -> insert_ elem (WPos p) evs = None.
 Proof.
-  intros H. cbn [insert_]. destruct (Z.ltb_spec p 0); [lia|]. rewrite sel_pos_none; [reflexivity|]. unfold raw in H. cbn [plus]. lia.
+  intros H. cbn [insert_]. destruct (Z.ltb_spec p 0); [lia|]. rewrite sel_pos_none; [reflexivity|]. cbn [plus]. lia.
 Qed.
 
 (* ---------------------------------------------------------------- replace (not formatted) *)
